@@ -134,3 +134,24 @@ package fragmentation
 //@   loop 3: invariant rest: forall k int :: m <= k && k < fragmentSize ==> s[k] == entry(s[k])
 //@   loop 3: modifies s[0:fragmentSize]
 //@   loop 3: decreases fragmentSize - m
+
+// ---------------------------------------------------------------------------
+// C18: command streams of any length -- framing recurrence of the real stream decoder
+// (decoding into an empty Commands value): every iteration consumes at least one byte, appends
+// exactly one command whose CID is the byte at the start of that iteration, and keeps the commands
+// decoded before; bounds, termination, frame.
+// ---------------------------------------------------------------------------
+//@ func (*Commands).UnmarshalBinary
+//@   props C09 C10 C18
+//@   inline
+//@   requires empty-target: len(*c) == 0 && cap(*c) == 0
+//@   modifies *c
+//@   loop 0: invariant bounds: i >= 0
+//@   loop 0: invariant target-fresh: len(*c) == 0 || fresh(*c)
+//@   loop 0: invariant target-empty-cap: len(*c) == 0 ==> cap(*c) == 0
+//@   loop 0: step progress: i > prev(i)
+//@   loop 0: step one-more: len(*c) == prev(len(*c)) + 1
+//@   loop 0: step cid: (*c)[len(*c)-1].CID == CID(data[prev(i)])
+//@   loop 0: step keep: forall k int :: 0 <= k && k < prev(len(*c)) ==> (*c)[k] == prev((*c)[k])
+//@   loop 0: modifies *c
+//@   loop 0: decreases len(data) - i
